@@ -3,7 +3,7 @@
    (Generated/TablesTrack.v; relation to the model: Sched/ModelSrc.v; reading of the data: Sched/SrcGlue.v, docs/TRANSLATOR3.md).
    `round(note_off.timestamp - self.current_time, 8) <= 0` is rendered as the exact comparison (Base/Round8.v
    r8_diff_compare; the binary64 side is Props/C02Float.v). *)
-From Isobar Require Import Base.Prelude Sched.Model Sched.NoteOffProofs Sched.SrcGlue Generated.TablesTrack Sched.ModelSrc Props.C02.
+From Isobar Require Import Base.Prelude Sched.Model Sched.NoteOffProofs Sched.SrcGlue Generated.TablesTrack Sched.ModelSrc Sched.ModelSrcTrack Props.C02.
 Local Open Scope Z_scope.
 
 (* the loop over a copy of note_offs with removal releases exactly the entries that are due, in list order, and keeps
@@ -44,6 +44,12 @@ Proof.
   split; [apply clear_pend|reflexivity].
 Qed.
 Print Assumptions C02_src_clear_keeps_pending.
+
+(* silence: an inactive event, or any event performed while the track is muted, makes no call and registers nothing *)
+Theorem C02_src_silence : forall fail nowT tr e n,
+  e_active e = false \/ t_muted tr = true -> src_track_perform_event fail nowT tr e n = (tr, [], n, PfOk).
+Proof. intros fail nowT tr e n H. rewrite src_track_perform_event_is. apply C02_silence. exact H. Qed.
+Print Assumptions C02_src_silence.
 
 Example C02_src_nonvacuous :
   let tr := mkTrack 0 empty_stream 10 20 None 0 [mkNO 10 10 60 0; mkNO 11 11 61 0; mkNO 10 10 60 0; mkNO 3 3 62 1] false true false true None in
